@@ -601,7 +601,7 @@ func checkC12(e *Env) {
 // observation is judged by the reference model. (C12 is the full treatment; this only makes
 // sure that a defect which needs concurrency to show is also seen by the check of the
 // property it breaks.)
-func (e *Env) concurrentSmoke(drv, label string, pool []plan.Op, procs, loops int) (calls int) {
+func (e *Env) concurrentSmoke(drv, label string, pool []plan.Op, procs, loops int, crashOnly ...bool) (calls int) {
 	var mu sync.Mutex
 	parallel(procs, max(1, e.Workers/4), func(pi int) {
 		r := rng.New(e.Seed, label+"-conc-"+itoa(pi))
@@ -634,6 +634,12 @@ func (e *Env) concurrentSmoke(drv, label string, pool []plan.Op, procs, loops in
 			if res.Panic != "" {
 				viol(fmt.Sprintf("%s panicked: %s", fnName(op.Fn), oneLine(res.Panic, 300)), res)
 				return
+			}
+			if len(crashOnly) > 0 && crashOnly[0] {
+				mu.Lock()
+				calls += n
+				mu.Unlock()
+				continue
 			}
 			if why := e.judgeAgainstRef(op, res, e.refEval(op)); why != "" {
 				viol(fmt.Sprintf("%s(lang %d) returned in %d of its calls something it does not return when run alone: %s", fnName(op.Fn), op.L, n, why), map[string]any{"op": op, "observed": res})
